@@ -528,6 +528,11 @@ func (r *run) concretise(t Tx, parent *blk) (*tx.Transaction, string) {
 			ben = r.net.Devs[t.V-1].Address
 		}
 		cls = append(cls, txkit.StakerSetBeneficiary(r.masterAddr(t.M), ben))
+	case "abort":
+		// passes every static check and buys gas, then the runtime aborts: the packer has to skip it without a trace
+		origin = r.user
+		cls = append(cls, txkit.Aborting())
+		flavourOK = false
 	case "reverted":
 		// an event-bearing clause followed by one that reverts: the whole transaction is reverted
 		origin = 0
@@ -596,13 +601,49 @@ func (r *run) pack(name, par string, p, now int, txs []Tx) *blk {
 		real = append(real, x)
 		flav = append(flav, f)
 	}
-	m, err := r.net.MintAt(ph.ID(), p-1, false, ph.Timestamp()+uint64(now)*T, real...)
+	// the packer's beneficiary option: its own address, another account, or none (then the endorsor)
+	var benef *thor.Address
+	opt := p
+	switch r.rng.Intn(4) {
+	case 0:
+		benef, opt = &r.net.Devs[r.bank].Address, r.bank+1
+	case 1:
+		opt = r.endIdx(p) + 1
+	default:
+		benef = &r.net.Devs[p-1].Address
+	}
+	m, err := r.net.MintAt(ph.ID(), p-1, benef, false, ph.Timestamp()+uint64(now)*T, real...)
 	if err != nil {
 		r.drift("pack %s on %s by %d now %d: %v", name, par, p, now, err)
 		return nil
 	}
-	if len(m.Refused) > 0 {
-		harnessError("packer refused a template transaction %+v: %v", txs[m.Refused[0].Index], m.Refused[0].Err)
+	refused := map[int]bool{}
+	for _, rf := range m.Refused {
+		if txs[rf.Index].K != "abort" {
+			harnessError("packer refused a template transaction %+v: %v", txs[rf.Index], rf.Err)
+		}
+		refused[rf.Index] = true
+	}
+	for i, t := range txs {
+		if t.K == "abort" && !refused[i] {
+			harnessError("the aborting template was adopted by the packer")
+		}
+	}
+	if len(refused) > 0 { // the packer skipped them: they are not in the block
+		var real2 []*tx.Transaction
+		var txs2 []Tx
+		var flav2 []string
+		for i := range txs {
+			if !refused[i] {
+				real2, txs2, flav2 = append(real2, real[i]), append(txs2, txs[i]), append(flav2, flav[i])
+			} else {
+				r.res.Kinds["abort"]++
+			}
+		}
+		real, txs, flav = real2, txs2, flav2
+		if flav == nil {
+			flav = []string{}
+		}
 	}
 	if m.Known {
 		r.res.Notes = append(r.res.Notes, fmt.Sprintf("run %d: %s would be a block that exists already; skipped", r.idx, name))
@@ -646,7 +687,7 @@ func (r *run) pack(name, par string, p, now int, txs []Tx) *blk {
 		}
 	}
 	ev := trace.Ev{"e": "Pack", "b": name, "par": par, "p": p, "now": now, "slot": slot, "num": h.Number(),
-		"score": h.TotalScore() - ph.TotalScore(), "benef": r.addrID(h.Beneficiary()), "txs": txsJSON(txs), "cord": r.cord(b),
+		"score": h.TotalScore() - ph.TotalScore(), "benef": r.addrID(h.Beneficiary()), "opt": opt, "txs": txsJSON(txs), "cord": r.cord(b),
 		"post": b.world, "hroot": h.StateRoot().String()[2:10], "hrroot": h.ReceiptsRoot().String()[2:10], "hgas": h.GasUsed(),
 		"flav": flav}
 	r.evs = append(r.evs, ev)
@@ -969,7 +1010,11 @@ func (r *run) randomTxs(w *world, num uint32, maxEvent int) []Tx {
 	}
 	for i := r.rng.Intn(3); i > 0; i-- {
 		pos := r.rng.Intn(len(txs) + 1)
-		txs = append(txs[:pos], append([]Tx{{"plain", 0, 0}}, txs[pos:]...)...)
+		k := "plain"
+		if r.rng.Intn(6) == 0 {
+			k = "abort"
+		}
+		txs = append(txs[:pos], append([]Tx{{k, 0, 0}}, txs[pos:]...)...)
 	}
 	return txs
 }
@@ -998,6 +1043,88 @@ func mustSigner(b *block.Block) thor.Address {
 	s, err := b.Header().Signer()
 	must(err)
 	return s
+}
+
+// ------------------------------------------------------------------------------------------------ state-level pick check
+
+// pickChecks compares, on states with more candidates than any simulated network has block producers, the two
+// implementations of "the first max-block-proposers endorsed candidates": scheduler.Candidates.Pick (validator) and
+// authority.Candidates(check, GetMaxBlockProposers(params, true)) (packer, packer/poa_scheduler.go).  One Pick event each.
+func pickChecks(idx int, seed int64, res *results, shapes map[string]bool) []trace.Ev {
+	cfg := Cfg{N: 4, Auth: []int{1, 2, 3}, Bal: []int{2, 1, 1, 1}, Thr: 1, Mbp: 3, E: 3, Per: 3, Gal: "never"}
+	r := newRun(idx, cfg, seed, res, shapes)
+	defer r.net.Close()
+	huge, _ := new(big.Int).SetString("1000000000000000000000000", 10)
+	variants := []struct {
+		n, skip int
+		mbp     *big.Int
+	}{{120, 0, big.NewInt(150)}, {120, 7, big.NewInt(150)}, {120, 0, big.NewInt(0)}, {120, 5, big.NewInt(101)}, {120, 0, big.NewInt(102)},
+		{120, 3, big.NewInt(60)}, {50, 4, big.NewInt(150)}, {101, 0, big.NewInt(200)}, {104, 0, huge}, {130, 2, big.NewInt(1000)}}
+	for vi, v := range variants {
+		st := r.stateOf(r.blocks["b0"].sum)
+		aut := builtin.Authority.Native(st)
+		for i := 0; i < v.n-3; i++ {
+			master := thor.BytesToAddress(thor.Blake2b([]byte(fmt.Sprintf("pick-master-%d-%d", vi, i))).Bytes())
+			endorsor := thor.BytesToAddress(thor.Blake2b([]byte(fmt.Sprintf("pick-endorsor-%d-%d", vi, i))).Bytes())
+			ok, err := aut.Add(master, endorsor, thor.BytesToBytes32([]byte("m")))
+			must(err)
+			if !ok {
+				harnessError("pick check: cannot add candidate")
+			}
+			if v.skip == 0 || i%v.skip != 0 {
+				must(st.SetBalance(endorsor, unitWei))
+			}
+		}
+		params := builtin.Params.Native(st)
+		must(params.Set(thor.KeyMaxBlockProposers, v.mbp))
+		end, err := params.Get(thor.KeyProposerEndorsement)
+		must(err)
+		checker := builtin.Staker.Native(st).TransitionPeriodBalanceCheck(r.net.FC, 1, end)
+		list, err := aut.AllCandidates()
+		must(err)
+		pos := map[thor.Address]int{}
+		flags := []bool{}
+		for i, c := range list {
+			pos[c.NodeMaster] = i + 1
+			ok, err := checker(c.NodeMaster, c.Endorsor)
+			must(err)
+			flags = append(flags, ok)
+		}
+		// validator side (twice: the second call uses the memoised index list)
+		cands := scheduler.NewCandidates(list)
+		_, err = cands.Pick(st, checker)
+		must(err)
+		props, err := cands.Copy().Pick(st, checker)
+		must(err)
+		vlist := []int{}
+		for _, p := range props {
+			vlist = append(vlist, pos[p.Address])
+		}
+		// packer side
+		mbp, err := thor.GetMaxBlockProposers(params, true)
+		must(err)
+		pcs, err := aut.Candidates(checker, mbp)
+		must(err)
+		plist := []int{}
+		for _, c := range pcs {
+			plist = append(plist, pos[c.NodeMaster])
+		}
+		m := 0
+		if v.mbp.IsInt64() && v.mbp.Int64() < 100000 {
+			m = int(v.mbp.Int64())
+		} else {
+			m = 100000 // "larger than anything": the model only compares it with the cap
+		}
+		r.evs = append(r.evs, trace.Ev{"e": "Pick", "n": len(list), "mbp": m, "endorsed": flags, "vlist": vlist, "plist": plist})
+		r.res.Validations++
+		r.res.ByHistory["state-level-pick"]++
+		if fmt.Sprint(vlist) != fmt.Sprint(plist) {
+			r.violate("pick-mismatch", "b0", "pick", fmt.Sprintf("with %d candidates and max-block-proposers %v the validator side picks %d proposers, the packer side %d",
+				len(list), v.mbp, len(vlist), len(plist)))
+		}
+	}
+	res.RunInfo = append(res.RunInfo, runInfo{Run: idx, Name: "state-level-pick", Events: len(r.evs), Blocks: 0})
+	return r.evs
 }
 
 // ------------------------------------------------------------------------------------------------ modes
@@ -1138,6 +1265,9 @@ func replay(in string, seed int64, res *results, shapes map[string]bool) [][]tra
 		res.RunInfo = append(res.RunInfo, runInfo{Run: i, Name: bh.Name, Events: len(r.evs), Blocks: len(r.order) - 1})
 		all = append(all, r.evs)
 		r.net.Close()
+	}
+	if in == "directed" {
+		all = append(all, pickChecks(len(behs), seed, res, shapes))
 	}
 	return all
 }
